@@ -405,7 +405,7 @@ static i128 det3 (const pixman_transform_t *t)
 }
 static void check_invert (vf_rng *r)
 {
-    pixman_transform_t t, inv; int kind = (int)(vf_next (r) % 6);
+    pixman_transform_t t, inv; int kind = (int)(vf_next (r) % 8);
     int lim = 1 << 24;   /* |entries| <= 2^8 */
     for (int i = 0; i < 3; i++) for (int j = 0; j < 3; j++) {
         switch (vf_next (r) % 4) {
@@ -427,6 +427,20 @@ static void check_invert (vf_rng *r)
         if (vf_chance (r, 1, 2)) for (int i = 0; i < 3; i++) t.matrix[i][c] = 0;
     }
     if (kind == 3) { for (int i = 0; i < 3; i++) for (int j = 0; j < 3; j++) t.matrix[i][j] = gen_fixed (r); }   /* arbitrary: only the singular claim */
+    if (kind >= 6) {
+        /* the matrices callers invert most: multiples of the identity (the homogeneous entry scaled too, or not), diagonal scales, pure translations,
+         * quarter turns - exact or with a few entries one to three units (1/65536) off */
+        static const pixman_fixed_t ks[] = { F1, 2 * F1, F1 / 2, -F1, 4 * F1, 3 * F1, F1 / 4, F1 / 8, 8 * F1, -2 * F1 };
+        pixman_fixed_t k = VF_PICK (r, ks); memset (&t, 0, sizeof t);
+        switch (vf_next (r) % 5) {
+        case 0: t.matrix[0][0] = t.matrix[1][1] = t.matrix[2][2] = k; break;
+        case 1: t.matrix[0][0] = t.matrix[1][1] = k; t.matrix[2][2] = F1; break;
+        case 2: t.matrix[0][0] = k; t.matrix[1][1] = VF_PICK (r, ks); t.matrix[2][2] = VF_PICK (r, ks); break;
+        case 3: t.matrix[0][0] = t.matrix[1][1] = t.matrix[2][2] = F1; t.matrix[0][2] = (pixman_fixed_t)vf_range (r, -5, 5); t.matrix[1][2] = vf_chance (r, 1, 2) ? (pixman_fixed_t)vf_range (r, -5, 5) : (pixman_fixed_t)vf_range (r, -100 * F1, 100 * F1); break;
+        default: t.matrix[0][1] = -k; t.matrix[1][0] = k; t.matrix[2][2] = F1; break;
+        }
+        int np = (int)(vf_next (r) % 4); for (int q2 = 0; q2 < np; q2++) t.matrix[vf_next (r) % 3][vf_next (r) % 3] += (pixman_fixed_t)vf_range (r, -3, 3);
+    }
     i128 det = det3 (&t);
     vf_case_desc ("invert m=[%s %s %s; %s %s %s; %s %s %s]", fx (t.matrix[0][0]), fx (t.matrix[0][1]), fx (t.matrix[0][2]),
                   fx (t.matrix[1][0]), fx (t.matrix[1][1]), fx (t.matrix[1][2]), fx (t.matrix[2][0]), fx (t.matrix[2][1]), fx (t.matrix[2][2]));
